@@ -21,7 +21,7 @@ class Prop(BaseProp):
             "SPIKE-Sync and spike-train order the value returned by the distance function is compared with an exact "
             "rational integration of the arrays of the returned profile (and with profile.avrg); N=2 goes through the "
             "bivariate call form. distinct = interleaving words incl. keyword regime and interval kind")
-    budget = {"quick": 900, "thorough": 20000}
+    budget = {"quick": 900, "thorough": 160000}
     must_see = ["interval_none", "interval_bp_bp", "interval_half_half", "interval_same_piece", "interval_from_start",
                 "interval_to_end", "interval_without_events", "N>=3", "bivariate_form", "RI_true", "max_tau_positive",
                 "mrts_positive", "mrts_auto", "order_checked", "sync_checked", "indices_selection", "indices_non_prefix"]
